@@ -32,6 +32,10 @@ func (p *Parser) findConvergenEntries() ([]*intfEntry, error) {
 	scope := p.pkg.Types.Scope()
 	for _, name := range scope.Names() {
 		obj := scope.Lookup(name)
+		if _, isType := obj.(*types.TypeName); !isType {
+			// A variable or constant of an interface type is no interface declaration.
+			continue
+		}
 		_, ok := obj.Type().Underlying().(*types.Interface)
 		if !ok {
 			continue
